@@ -33,7 +33,7 @@ func init() {
 		Run: c11Run,
 		Floors: func(m *Merged, tier string) []string {
 			var u []string
-			for _, c := range []string{"layout_negative_key", "layout_zero_key", "layout_maxkey_254", "layout_maxkey_255", "layout_maxkey_256", "layout_big_key", "layout_undefined_mode", "layout_regvarandop", "layout_prepopulated_then_regvarandop", "fetcher_slice", "fetcher_map", "registrations_checked", "weighted_sums", "ident_probes", "pair_probes", "bindings_with_unregistered_extras", "late_explicit_key_probes", "single_variable_programs"} {
+			for _, c := range []string{"layout_negative_key", "layout_zero_key", "layout_maxkey_254", "layout_maxkey_255", "layout_maxkey_256", "layout_big_key", "layout_undefined_mode", "layout_regvarandop", "layout_prepopulated_then_regvarandop", "fetcher_slice", "fetcher_map", "registrations_checked", "weighted_sums", "ident_probes", "pair_probes", "bindings_with_unregistered_extras", "late_explicit_key_probes", "single_variable_programs", "rekeyed_name_probes"} {
 				if m.C(c) == 0 {
 					u = append(u, c+" = 0")
 				}
@@ -542,6 +542,45 @@ func c11Run(w *W, idx int) {
 					}
 				}
 				delete(cc.VariableKeyMap, late)
+			}
+			// ... and an existing name moved to another key (the number of registered names does not change)
+			a := intVars[r.Intn(len(intVars))]
+			oldKey := cc.VariableKeyMap[a.name]
+			newKey := -40000
+			for _, c := range []int{maxK + 7, minK - 3, 300, -3, 255, 256}[r.Intn(6):] {
+				if c > -30000 && c < 32000 && !used[eval.VariableKey(c)] {
+					newKey = c
+					break
+				}
+			}
+			if newKey != -40000 {
+				eval.NewCtxFromVars(cc, vals) // a context with the old layout exists
+				cc.VariableKeyMap[a.name] = eval.VariableKey(newKey)
+				src := fmt.Sprintf("(ident %s)", a.name)
+				e, co := compileGuard(cc, src)
+				w.Evals++
+				w.Inc("rekeyed_name_probes")
+				if co.Panic != nil || co.Err != nil {
+					w.Fail("late-explicit-key/compile", "Compile(%s) gave %s after %q was moved from key %d to %d\n%s", src, co, a.name, oldKey, newKey, layoutDesc)
+				} else {
+					o := guard(func() (eval.Value, error) { return e.Eval(eval.NewCtxFromVars(cc, vals)) })
+					w.Evals++
+					if o.Panic != nil || o.Err != nil || !valEq(o.V, a.val.norm) {
+						w.Fail("wrong-value-delivered/rekeyed-name", "%s = %s, expected %s: %q was moved from key %d to key %d after a context had been created from the Config (old key range %d..%d)\n%s", src, o, valText(a.val.norm), a.name, oldKey, newKey, minK, maxK, layoutDesc)
+					}
+					// a variable the binding leaves out, under the new layout: an error, never a panic
+					partial := map[string]interface{}{}
+					for k, v := range vals {
+						if k != a.name {
+							partial[k] = v
+						}
+					}
+					o2 := guard(func() (eval.Value, error) { return e.Eval(eval.NewCtxFromVars(cc, partial)) })
+					if o2.Panic != nil {
+						w.Fail("panic/"+normPanic(o2.Panic)+"@"+panicSite(o2.Stack), "Eval panicked for an unbound re-keyed variable: %v\n%s", o2.Panic, layoutDesc)
+					}
+				}
+				cc.VariableKeyMap[a.name] = oldKey
 			}
 		}
 	}
